@@ -10,6 +10,7 @@ func init() {
 			ruleReplayClosesPerFile(r)
 			ruleNoAcquireAfterClose(r)
 			ruleCloseReleasesAll(r)
+			ruleOpenFailureReleases(r)
 			ruleStackKeepsEveryReader(r)
 			ruleAcquireFailureCloses(r, []string{"simpledb", "sstables", "memstore", "recordio", "recordio/proto", "wal", "wal/proto"})
 			ruleOwnerLocals(r, []string{"simpledb", "sstables", "wal", "memstore", "recordio", "recordio/proto"})
